@@ -345,6 +345,63 @@ fn main() {
 			expect_reject(&mut out, &format!("c01 block big-fees kernels={} coinbase-claims-only-2^40-1", k), &verdict_block(&b2, &po), &mut bad);
 		}
 	}
+	// ---- kernels with a fee shift (the priority hint of the fee field): the value given up is the
+	// FULL declared fee, whatever the shift; honest objects validate, a transaction keeping the part
+	// of its fee that the shift hides must not balance
+	{
+		let mk = |i: u32, shift: u64, fee: u64, given_up: u64| -> Option<Transaction> {
+			let value = 900_000_000u64 + i as u64 * 1000;
+			build::transaction(
+				KernelFeatures::Plain { fee: grin_core::core::FeeFields::new(shift, fee).ok()? },
+				&[build::input(value, key(11, i)), build::output(value - given_up, key(12, i))],
+				&kc,
+				&ProofBuilder::new(&kc),
+			)
+			.ok()
+		};
+		let mut honest = vec![];
+		for (i, shift) in [1u64, 2, 4, 8, 15].iter().enumerate() {
+			let fee = 4_000_000u64 + i as u64;
+			if let Some(t) = mk(i as u32, *shift, fee, fee) {
+				let v = verdict_tx(&t);
+				out.line(&format!("c01 tx valid fee-shift={}", shift), &v);
+				if v != "ok" {
+					out.raw(&format!("#ORACLE-FAIL C01 valid transaction declaring fee {} with fee shift {} and giving up exactly {} rejected: {}", fee, shift, fee, v));
+				}
+				honest.push(t);
+			}
+			// declares `fee`, gives up only fee >> shift (libtx builds what it is told: the kernel
+			// excess then simply does not match the declared fee)
+			if let Some(t) = mk(100 + i as u32, *shift, fee, fee >> shift) {
+				cases += 1;
+				expect_reject(&mut out, &format!("c01 tx fee-shift={} gives-up-only-shifted-fee", shift), &verdict_tx(&t), &mut bad);
+			}
+		}
+		if honest.len() >= 2 {
+			// mixed shifts in one aggregate and in a block collecting the full fees
+			let agg = transaction::aggregate(&honest).unwrap();
+			let v = verdict_tx(&agg);
+			out.line("c01 tx valid fee-shift aggregate", &v);
+			if v != "ok" {
+				out.raw(&format!("#ORACLE-FAIL C01 valid aggregate of transactions with fee shifts rejected: {}", v));
+			}
+			let prev = grin_core::core::BlockHeader::default();
+			let fees: u64 = honest.iter().map(|t| t.fee()).sum();
+			let rw = reward::output(&kc, &ProofBuilder::new(&kc), &key(13, 0), fees, false).unwrap();
+			let blk = Block::new(&prev, &honest, Difficulty::min_dma(), rw).unwrap();
+			let po = prev.total_kernel_offset();
+			let vb = verdict_block(&blk, &po);
+			out.line("c01 block valid fee-shift", &vb);
+			if vb != "ok" {
+				out.raw(&format!("#ORACLE-FAIL C01 valid block collecting the full fees {} of fee-shifted kernels rejected: {}", fees, vb));
+			}
+			let shifted: u64 = honest.iter().map(|t| t.fee() >> t.body.fee_shift()).sum();
+			let rw2 = reward::output(&kc, &ProofBuilder::new(&kc), &key(13, 1), shifted, false).unwrap();
+			let b2 = Block::new(&prev, &honest, Difficulty::min_dma(), rw2).unwrap();
+			cases += 1;
+			expect_reject(&mut out, "c01 block fee-shift coinbase-claims-only-shifted-fees", &verdict_block(&b2, &po), &mut bad);
+		}
+	}
 	out.raw(&format!("#STAT c01 corruption cases={} accepted={}", cases, bad));
 	out.flush();
 }
